@@ -432,7 +432,7 @@ func c06Main(r *run.Runner) {
 	}
 	var seqs []seq
 	names := []string{"n", "m", "true", "na"}
-	for _, pm := range c06ParamMaps {
+	for _, pm := range c06ParamMaps[:5] {
 		param := ""
 		if _, ok := pm.m["p"]; ok {
 			param = "p"
@@ -490,6 +490,22 @@ func c06Main(r *run.Runner) {
 						c06Check(w, ins[w.ID], c06Case{lets: s.lets, params: s.params, site: &sites[si], ident: pname})
 					}
 				}
+			}
+		}
+	})
+	// wide: many bindings / parameters, the identifier used is one of them
+	wseqs := c06WideSeqs(r.Thorough())
+	r.Sweep("binding-semantics-wide", int64(len(wseqs)), func(w *run.Worker, item int64) {
+		if ins[w.ID] == nil {
+			ins[w.ID] = sem.NewInterner()
+		}
+		s := wseqs[item]
+		for si := range sites {
+			if !s.allSites && si%5 != int(item)%5 {
+				continue
+			}
+			for _, id := range s.idents {
+				c06Check(w, ins[w.ID], c06Case{lets: s.lets, params: s.params, site: &sites[si], ident: id})
 			}
 		}
 	})
@@ -556,6 +572,67 @@ func c06Main(r *run.Runner) {
 	s0, _ := c06Case{lets: []letDef{{"n", &gen.Unary{Op: "-", X: gen.NumLit("5", "5")}}}, site: &sites[1], ident: "n"}.source()
 	r.Sample(s0)
 	r.Sample(laws[0].with)
+}
+
+type c06Wide struct {
+	lets     []letDef
+	params   c06Params
+	idents   []string
+	allSites bool
+}
+
+func wideParams(k int) c06Params {
+	m := map[string]string{}
+	for i := 0; i < k; i++ {
+		m[fmt.Sprintf("q%dx", i)] = fmt.Sprintf("{q%dx:Int32}", i)
+	}
+	return c06Params{fmt.Sprintf("wide-%d", k), m}
+}
+
+func init() {
+	for _, k := range wideSizes(true) {
+		c06ParamMaps = append(c06ParamMaps, wideParams(k))
+	}
+}
+
+// c06WideSeqs: k bindings (a chain, independent ones, shadowing chains) or k parameters, for every wide size.
+func c06WideSeqs(thorough bool) []c06Wide {
+	var out []c06Wide
+	one := gen.NumLit("1", "1")
+	plus1 := func(name string) gen.Expr { return &gen.Binary{Op: "+", X: gen.Col(name), Y: one} }
+	v := func(p string, i int) string { return fmt.Sprintf("%s%d", p, i) }
+	for _, k := range wideSizes(thorough) {
+		small := k <= 16
+		if k <= 65 {
+			chain := []letDef{{"v0", one}}
+			shadow := []letDef{{"n", one}}
+			alt := []letDef{{"n", one}}
+			for i := 1; i < k; i++ {
+				chain = append(chain, letDef{v("v", i), plus1(v("v", i-1))})
+				shadow = append(shadow, letDef{"n", plus1("n")})
+				alt = append(alt, letDef{[]string{"n", "m"}[i%2], plus1([]string{"n", "m"}[(i+1)%2])})
+			}
+			out = append(out,
+				c06Wide{chain, c06ParamMaps[0], []string{v("v", k-1), "v0", v("v", k/2)}, small},
+				c06Wide{shadow, c06ParamMaps[0], []string{"n"}, small},
+				c06Wide{alt, c06ParamMaps[1], []string{"n", "m"}[:min(k, 2)], small},
+			)
+		}
+		var indep []letDef
+		for i := 0; i < k; i++ {
+			indep = append(indep, letDef{v("w", i), gen.NumLit(fmt.Sprint(100+i), fmt.Sprint(100+i))})
+		}
+		var ids, pids []string
+		for _, j := range hotPositions(k) {
+			ids = append(ids, v("w", j))
+			pids = append(pids, fmt.Sprintf("q%dx", j))
+		}
+		out = append(out, c06Wide{indep, c06ParamMaps[0], ids, false})
+		// k parameters and one let that uses the last of them
+		pm := wideParams(k)
+		out = append(out, c06Wide{[]letDef{{"z", plus1(fmt.Sprintf("q%dx", k-1))}}, pm, append([]string{"z"}, pids...), false})
+	}
+	return out
 }
 
 func c06Replay(w *run.Worker, v *run.Viol) {
